@@ -4,6 +4,7 @@ import (
 	"encoding/json"
 	"fmt"
 	"os"
+	"os/user"
 	"reflect"
 	"sort"
 	"strings"
@@ -429,9 +430,43 @@ func tableSweep(run *ev.Run) {
 	run.Set("table_sweep_events", n)
 }
 
+// longHistory: capacity thresholds inside caches sit far above any small pool.  One event
+// that depends on a pinned (hard-coded) cache entry and on uid 0 is resolved, then n unrelated
+// events with unique ids go through the SAME global caches, then the first one again.
+func longHistory(run *ev.Run, n int) {
+	aucoalesce.HardcodeUsers(user.User{Uid: "990001", Username: "svc-verif"})
+	aucoalesce.HardcodeGroups(user.Group{Gid: "990002", Name: "grp-verif"})
+	line := func(uid, gid int) []string {
+		return []string{fmt.Sprintf(`type=SYSCALL msg=audit(1492037500.000:%d): arch=c000003e syscall=2 success=yes exit=3 a0=1 a1=2 a2=3 a3=4 items=0 ppid=1 pid=2 auid=0 uid=%d gid=%d euid=%d suid=0 fsuid=0 egid=%d sgid=0 fsgid=0 tty=pts0 ses=3 comm="c" exe="/x" key=(null)`, uid%100000, uid, gid, uid, gid)}
+	}
+	resolve := func(uid, gid int) string {
+		e, err := aucoalesce.CoalesceMessages(parseGroup(line(uid, gid)))
+		if e != nil {
+			aucoalesce.ResolveIDs(e)
+		}
+		return evSnap(e, err)
+	}
+	first := resolve(990001, 990002)
+	for i := 0; i < n; i++ {
+		_ = resolve(1000000+i, 2000000+i)
+	}
+	again := resolve(990001, 990002)
+	run.Add("transitions", int64(n+2))
+	run.Add("traces_validated_against_impl", 1)
+	run.Set("long_history_events_through_the_global_caches", n)
+	if first != again {
+		run.Report(ev.Violation{Sig: "C15 outcome-depends-on-long-history", What: fmt.Sprintf("resolving the same message before and after %d unrelated events (unique ids) through the global caches gives different events:\n  %s\n->\n  %s", n, first, again), Replay: map[string]interface{}{"unrelated_events": n}})
+	}
+}
+
 func checkC15(tier, raceBin string) int {
 	run := ev.Begin("C15", tier, "model_checking")
 	tableSweep(run)
+	if tier == "thorough" {
+		longHistory(run, 300000)
+	} else {
+		longHistory(run, 70000)
+	}
 	maxLen := 3
 	if tier == "thorough" {
 		maxLen = 4
